@@ -28,7 +28,7 @@ def _day_borrow(case):
     """DATE with a day <= 0 borrows the length of month m instead of m-1."""
     a = case.get('args', [])
     return case.get('call') in ('date', 'date-carry') and len(a) >= 3 and isinstance(a[2], (int, float)) \
-        and a[2] <= 0
+        and -25000 <= a[2] <= 0       # beyond -25000: C17-day-recursion
 
 
 @known_predicate('C17-eomonth-last-month')
@@ -36,36 +36,35 @@ def _eomonth_last(case):
     return case.get('call') == 'eomonth' and case.get('oracle') == 'last-month'
 
 
-def _norm_month(y, m):
-    return y + (m - 1) // 12, (m - 1) % 12 + 1
-
-
-@known_predicate('C17-year-zero-typeerror')
-def _year_zero(case):
-    """INERT (no entry in known_findings.json; outside the property's quantifier: months below
-    -22000).  DATE / EDATE / EOMONTH whose month arithmetic reaches February of a year <= 0 raise
-    TypeError from is_leap_year ("must be strictly positive"): DATE(1900, -22810, 1),
-    EOMONTH(100, -22815), EDATE(100, -22814).  Proved exact for days 1..28 (C17_date_small_day);
-    witness coq/Refuted/C17_date_exceptions.v."""
-    a = case.get('args', [])
-    if case.get('call') == 'date' and len(a) >= 3 and all(isinstance(x, int) for x in a[:3]) \
-            and 0 <= a[0] <= 9999:
-        y, m = _norm_month(a[0] + 1900 if a[0] < 1900 else a[0], a[1])
-        return m == 2 and y <= 0
-    if case.get('call') in ('edate', 'eomonth') and len(a) >= 2 and all(isinstance(x, int) for x in a[:2]):
-        return a[1] < -22000
-    return False
-
-
 @known_predicate('C17-day-recursion')
 def _day_recursion(case):
-    """INERT (no entry in known_findings.json; outside the property's quantifier: days beyond
-    +-25000).  normalize_year recurses once per month carried, so DATE(2000, 1, 40000) and
+    """normalize_year recurses once per month carried, so DATE(2000, 1, 40000) and
     DATE(2000, 1, -40000) raise RecursionError (the model: OutOfFuel, budget 900 calls).  No
-    exception is proved for |day| <= 25000 (C17_date_total_partial)."""
+    exception is proved for |day| <= 25000 (C17_date_total_partial); outside the property's
+    quantifier (days -40..60).  Looks at: case['call'] in ('date', 'date-carry') and
+    case['args'][2] an int with |day| > 25000."""
     a = case.get('args', [])
     return case.get('call') in ('date', 'date-carry') and len(a) >= 3 and isinstance(a[2], int) \
-        and abs(a[2]) > 25000
+        and not isinstance(a[2], bool) and abs(a[2]) > 25000
+
+
+# Repair 7da3fd9 (dates normalised to a year before 1 are #NUM!): the inputs that raised TypeError
+# from is_leap_year(year <= 0) before it, and their neighbours.  Every one must be #NUM! (or, for
+# DATE(1, 1, -40) which stays in the calendar, a serial day) — never an exception.
+YEAR_ZERO_CASES = (
+    [('date', (1900, -22810, 1), 'num'), ('date', (1900, -22798, 1), 'num'),
+     ('eomonth', (100, -22815), 'num'), ('edate', (100, -22814), 'num'),
+     ('date', (1900, -22799, -40), 'num'), ('date', (1, 1, -40), 'value'),
+     ('date', (0, -22810, 28), 'num'), ('date', (1899, -45598, 1), 'num')]
+    + [(f, (100, k), 'num') for k in range(-23000, -22700) for f in ('edate', 'eomonth')])
+
+
+def _is_date_value(r):
+    if r[0] != 'ok':
+        return False
+    v = r[1]
+    return v == '#NUM!' or v == ('float', F(60)) or (isinstance(v, int) and not isinstance(v, bool)
+                                                      and 0 <= v <= MAXDAY)
 
 
 def run(ctx):
@@ -114,6 +113,22 @@ def run(ctx):
         for k in (-10000, rng.randrange(-10000, -1200), rng.randrange(1200, 100000)):
             calls.append(('edate', (n, k)))
             calls.append(('eomonth', (n, k)))
+    # repair 7da3fd9: months that normalise to a year before 1 (correspondence here, oracle below)
+    for f, a, _ in YEAR_ZERO_CASES:
+        calls.append((f, a))
+    for _ in range(ctx.n(40, 400)):
+        calls.append(('date', (rng.choice([0, 1, 1899, 1900, 2000, 9999]), rng.randrange(-200000, -11000),
+                               rng.randrange(-40, 61))))
+        calls.append((rng.choice(['edate', 'eomonth']), (rng.choice(days), rng.randrange(-200000, -10000))))
+    # known finding C17-day-recursion: exercised once known_findings.json lists it (until then the
+    # two calls would make every run fail; ctx.extra records whether they ran)
+    recursion_listed = any(f.get('id') == 'C17-day-recursion' and f.get('kind') == 'known'
+                           for f in getattr(ctx, 'findings', []))
+    ctx.extra['day_recursion_stream'] = 'exercised' if recursion_listed else \
+        'skipped: known_findings.json has no entry C17-day-recursion'
+    if recursion_listed:
+        calls.append(('date', (2000, 1, 40000)))
+        calls.append(('date', (2000, 1, -40000)))
     for n in days[::11]:
         for k in [0, 1, -1, 12, -12, 1200, -1200] + [rng.randrange(-1200, 1201) for _ in range(3)]:
             calls.append(('edate', (n, k)))
@@ -260,6 +275,14 @@ def oracle(ctx, fn, days, years):
                     if got != ('ok', want):
                         ctx.violation(dict(call='edate', args=[n, k]), "EDATE does not shift by whole months",
                                       impl=got, expected=want)
+    # repair 7da3fd9: a date normalised to a year before 1 is #NUM!, never an exception
+    for f, a, want in YEAR_ZERO_CASES:
+        ctx.count(('year-zero', f, a), kind='oracle-year-zero')
+        r = run_impl(fn[f], *a)
+        if (want == 'num' and r != ('ok', '#NUM!')) or not _is_date_value(r):
+            ctx.violation(dict(call=f, args=list(a)),
+                          "a date before year 1 is not #NUM! / raises" if want == 'num'
+                          else "not a date value / raises", impl=r, expected='#NUM!' if want == 'num' else None)
     # YEARFRAC symmetric
     for _ in range(ctx.n(400, 6000)):
         a, b = ctx.rng.randrange(0, MAXDAY + 1), ctx.rng.randrange(0, MAXDAY + 1)
